@@ -43,7 +43,12 @@ struct Step { int kind, joint; };
 struct Case {
     std::vector<Step> seq;
     int wk = 0, ok = 0, nel = 1, end = 0, tol = 0, tr = 0;
+    int eu = -1, ev = -1;  // PATH-extension stage: kind of the start / end extension (-1: the fixed pair (1, 0.5))
 };
+// extension kinds, relative to the element's own half width hw (constant width): the OASIS writer has a special
+// encoding for 0 and for hw, the reader classifies (0,0) / (hw,hw) / anything else
+static const char* XNAME[] = {"zero", "halfwidth", "positive", "negative"};
+static double ext_value(int kind, double hw) { return kind == 0 ? 0.0 : kind == 1 ? hw : kind == 2 ? 0.75 * hw : -0.25 * hw; }
 static std::string seq_str(const std::vector<Step>& s) {
     std::string o;
     for (size_t i = 0; i < s.size(); i++) o += (i ? "," : "") + std::to_string(s[i].kind) + "." + std::to_string(s[i].joint);
@@ -55,16 +60,19 @@ static std::string seq_names(const std::vector<Step>& s) {
     return o;
 }
 static std::string replay_of(const Case& c) {
-    return fmt("seq=%s wk=%d ok=%d nel=%d end=%d tol=%d tr=%d", seq_str(c.seq).c_str(), c.wk, c.ok, c.nel, c.end, c.tol, c.tr);
+    std::string r = fmt("seq=%s wk=%d ok=%d nel=%d end=%d tol=%d tr=%d", seq_str(c.seq).c_str(), c.wk, c.ok, c.nel, c.end, c.tol, c.tr);
+    if (c.eu >= 0) r += fmt(" eu=%d ev=%d", c.eu, c.ev);
+    return r;
 }
 static std::string case_json(const Case& c) {
     return jobj({{"sections", jstr(seq_names(c.seq))}, {"width", jstr(WNAME[c.wk])}, {"offset", jstr(ONAME[c.ok])}, {"elements", jint(c.nel)},
-                 {"end", jstr(ENAME[c.end])}, {"tolerance", jnum(TOLS[c.tol])}, {"transform", jstr(TNAME[c.tr])}, {"max_evals", jint(MAX_EVALS)}});
+                 {"end", jstr(c.eu >= 0 ? fmt("extended(start=%s,end=%s)", XNAME[c.eu], XNAME[c.ev]) : std::string(ENAME[c.end]))}, {"tolerance", jnum(TOLS[c.tol])}, {"transform", jstr(TNAME[c.tr])}, {"max_evals", jint(MAX_EVALS)}});
 }
 static JFields tags_of(const Case& c, int el, int sec_kind) {
     JFields t = {{"sections", jstr(seq_names(c.seq))}, {"nsections", jint((int64_t)c.seq.size())}, {"width", jstr(WNAME[c.wk])}, {"offset", jstr(ONAME[c.ok])},
                  {"elements", jint(c.nel)}, {"element", jint(el)}, {"end", jstr(ENAME[c.end])}, {"tolerance", jnum(TOLS[c.tol])}, {"transform", jstr(TNAME[c.tr])}};
     if (sec_kind >= 0) t.push_back({"section_kind", jstr(KNAME[sec_kind])});
+    if (c.eu >= 0) { t.push_back({"ext_start", jstr(XNAME[c.eu])}); t.push_back({"ext_end", jstr(XNAME[c.ev])}); }
     return t;
 }
 
@@ -90,6 +98,7 @@ struct Built {
     std::deque<CircData> circ;               // stable addresses for user data
     std::deque<IM> imdata;
     Xf T;                                    // harness-side transform
+    double extu[2] = {EXT_U, EXT_U}, extv[2] = {EXT_V, EXT_V};  // Extended end: per element (start, end), untransformed
     std::string construct_error;
     ~Built() { path.clear(); }
 };
@@ -124,7 +133,8 @@ static void build(const Case& c, Built& b) {
     p.scale_width = true;
     for (int e = 0; e < c.nel; e++) {
         p.elements[e].end_type = ETYPE[c.end];
-        if (ETYPE[c.end] == EndType::Extended) p.elements[e].end_extensions = Vec2{EXT_U, EXT_V};
+        if (c.eu >= 0) { b.extu[e] = ext_value(c.eu, 0.5 * W_HI[e]); b.extv[e] = ext_value(c.ev, 0.5 * W_HI[e]); }
+        if (ETYPE[c.end] == EndType::Extended) p.elements[e].end_extensions = Vec2{b.extu[e], b.extv[e]};
     }
     V pen = start;
     double heading = 0;
@@ -405,7 +415,7 @@ static void check_spine(const Case& c, Built& b) {
     sp.clear();
 }
 
-struct Reread { std::vector<V> pts; double width = NAN; int end_type = -1; };
+struct Reread { std::vector<V> pts; double width = NAN; int end_type = -1; double ext_u = NAN, ext_v = NAN; };
 // Hook: an independent PATH decoder can replace this function (same signature); today the files are
 // re-read with gdstk's own readers.
 static bool reread_paths(const std::string& file, bool oas, double tol, std::vector<Reread>& out) {
@@ -419,7 +429,7 @@ static bool reread_paths(const std::string& file, bool oas, double tol, std::vec
             Reread r;
             for (uint64_t j = 0; j < fp->spine.point_array.count; j++) r.pts.push_back(V{fp->spine.point_array[j].x, fp->spine.point_array[j].y});
             if (fp->num_elements == 1 && fp->elements[0].half_width_and_offset.count > 0) r.width = 2 * fp->elements[0].half_width_and_offset[0].x;
-            if (fp->num_elements == 1) r.end_type = (int)fp->elements[0].end_type;
+            if (fp->num_elements == 1) { r.end_type = (int)fp->elements[0].end_type; r.ext_u = fp->elements[0].end_extensions.u; r.ext_v = fp->elements[0].end_extensions.v; }
             out.push_back(r);
         }
         if (cell->polygon_array.count) ok = false;
@@ -468,6 +478,23 @@ static void check_path_record(const Case& c, Built& b, std::vector<ElemOracle>& 
             std::string why = eo[e].check_centre_line(rr[e].pts, tol + 2e-6 + aslack, 4 * tol + 2e-6 + aslack);
             if (!why.empty()) report(c, {sub, "centre_line", why, e, -1, {{"format", jstr(F)}, {"offset_slope_jump_at_tangent_joint", jbool(eo[e].offset_slope_jump)}, {"nograd_section_with_offset_slope_at_end", jbool(eo[e].nograd_offset_slope)}, {"taper_at_angled_joint", jbool(eo[e].taper_at_angled_joint)}}});
             R->outcome(sub, fmt("end %s -> %d", ENAME[c.end], rr[e].end_type));
+            // the record's end specification denotes the same effective (start, end) extensions as the element's
+            EndType want = ETYPE[c.end], got = (EndType)rr[e].end_type;
+            if (want == EndType::Round) {
+                if (!oas && got != EndType::Round) report(c, {sub, "end_type", fmt("round end re-read as end type %d", rr[e].end_type), e, -1, {{"format", jstr(F)}}});
+            } else {  // OASIS has no round ends (written flush by design): not compared above
+                double hwT = 0.5 * w_expect, wu, wv, gu = NAN, gv = NAN;
+                if (want == EndType::Flush) wu = wv = 0;
+                else if (want == EndType::HalfWidth) wu = wv = hwT;
+                else { wu = b.extu[e] * b.T.mag; wv = b.extv[e] * b.T.mag; }
+                if (got == EndType::Flush) gu = gv = 0;
+                else if (got == EndType::HalfWidth) gu = gv = 0.5 * rr[e].width;
+                else if (got == EndType::Extended) { gu = rr[e].ext_u; gv = rr[e].ext_v; }
+                if (!(fabs(gu - wu) <= 2e-6 && fabs(gv - wv) <= 2e-6))
+                    report(c, {sub, "extension", fmt("the element's end extensions are (start %.9g, end %.9g) [end type %s, half width %.9g]; the re-read PATH has end type %d, i.e. effective extensions (start %.9g, end %.9g)",
+                                                     wu, wv, ENAME[c.end], hwT, rr[e].end_type, gu, gv), e, -1, {{"format", jstr(F)}, {"reread_end_type", jint(rr[e].end_type)}}});
+                R->count("path_extension_pairs_compared");
+            }
         }
         R->count(oas ? "path_records_oas" : "path_records_gds", c.nel);
     }
@@ -479,6 +506,7 @@ static void check_path_record(const Case& c, Built& b, std::vector<ElemOracle>& 
 }
 
 static bool is_nontrivial(const Case& c) {
+    if (c.eu >= 0) return c.eu != 2 || c.ev != 2;  // an extension that is zero, exactly the half width, or negative
     bool anycurved = false, smoothcont = false;
     for (size_t i = 0; i < c.seq.size(); i++) {
         anycurved |= curved(c.seq[i].kind);
@@ -506,8 +534,10 @@ static void run_case(const Case& c) {
     const double tol = TOLS[c.tol], g = 4 * tol;
 
     double tq = now();
-    check_queries(c, b);
-    check_spine(c, b);
+    if (c.eu < 0) {
+        check_queries(c, b);
+        check_spine(c, b);
+    }
     prof("us_queries_spine", tq);
 
     if (VERBOSE) {  // what the joint searches of to_polygons return (private members; diagnostics only)
@@ -533,7 +563,7 @@ static void run_case(const Case& c) {
         ElemOracle& o = eo[e];
         double ti = now();
         o.init(b.secs, b.wim[e], b.oim[e], b.T, NS, g, (int)ETYPE[c.end] == (int)EndType::Flush ? 0 : (int)ETYPE[c.end] == (int)EndType::HalfWidth ? 1 : (int)ETYPE[c.end] == (int)EndType::Extended ? 2 : 3,
-               EXT_U * b.T.mag, EXT_V * b.T.mag);
+               b.extu[e] * b.T.mag, b.extv[e] * b.T.mag);
         prof("us_oracle_init", ti);
         if (!o.error.empty()) { R->internal_error("oracle: " + o.error + " in " + replay_of(c)); continue; }
         if (!o.degenerate.empty()) { R->count("elements_skipped_degenerate_joint"); R->outcome("dropped", o.degenerate + ": " + seq_names(c.seq)); { static int noted = 0; if (noted++ < 2) R->note(fmt("element %d skipped as degenerate (%s) in %s", e, o.degenerate.c_str(), replay_of(c).c_str())); } continue; }
@@ -554,6 +584,23 @@ static void run_case(const Case& c) {
             fprintf(stderr, "element %d outline (%zu vertices):\n", e, pts.size());
             for (size_t i = 0; i < pts.size(); i++) fprintf(stderr, "  P %zu %.9g %.9g\n", i, pts[i].x, pts[i].y);
             for (size_t si = 0; si < o.S.size(); si++) for (int k = 0; k <= NS; k += 100) fprintf(stderr, "  C %zu %d %.9g %.9g hw %.6g n %.6g %.6g\n", si, k, o.S[si].C[k].x, o.S[si].C[k].y, o.S[si].hw[k], o.S[si].Nn[k].x, o.S[si].Nn[k].y);
+        }
+        if (c.eu >= 0) {
+            // PATH-extension stage: the outline itself is only asked where its end planes are (farthest vertex
+            // along the outward end tangent, for extensions >= 0); the body is the other stages' subject
+            for (int which = 0; which < 2; which++) {
+                double ext = (which ? b.extv[e] : b.extu[e]) * b.T.mag;
+                if (ext < 0) { R->count("ext_outline_plane_not_measured_negative"); continue; }
+                const auto& sc = which ? o.S.back() : o.S.front();
+                int k = which ? o.N : 0;
+                V ce = sc.C[k], t = which ? sc.Tt[k] : sc.Tt[k] * -1.0;
+                double hw = sc.hw[k], reach = sqrt(hw * hw + ext * ext) + 0.1 * hw, far = -INFINITY;
+                for (auto& q : pts) if (len(q - ce) <= reach) far = std::max(far, dot(q - ce, t));
+                if (!(fabs(far - ext) <= 1e-3 * b.T.mag))
+                    report(c, {"outline", "extension", fmt("%s end: the outline reaches %.9g beyond the end of the centre curve, the element's extension is %.9g", which ? "final" : "initial", far, ext), e, sc.C.empty() ? -1 : b.secs[which ? b.secs.size() - 1 : 0].kind, {}});
+                R->count("ext_outline_planes_measured");
+            }
+            continue;
         }
         PolyIndex pi(pts);
         R->count("outline_vertices", (int64_t)pts.size());
@@ -631,14 +678,10 @@ static std::vector<Group> full_groups() {
     for (int tr = 0; tr < NTR; tr++) for (int tol = 0; tol < 2; tol++) for (int end = 0; end < 4; end++) for (int nel = 1; nel <= 2; nel++) g.push_back({nel, end, tol, tr});
     return g;
 }
-static std::vector<Group> diagonal_groups() {
-    return {{1, 0, 0, 0}, {2, 1, 1, 1}, {1, 2, 0, 2}, {2, 3, 1, 3}, {1, 3, 0, 4}};
-}
 static std::vector<Group> quick_groups() {  // quick tier, 2-section paths (mirror() itself: full product of the 1-section stage)
     return {{1, 0, 0, 0}, {2, 1, 1, 1}, {2, 3, 1, 3}, {1, 2, 0, 4}};
 }
 static const char* QUICK_DESC = "{(1 el,flush,1e-2,identity),(2,halfwidth,1e-3,rotate),(2,round,1e-3,scale2),(1,extended,1e-2,transform)}";
-static const char* DIAG_DESC = "{(1 el,flush,1e-2,identity),(2,halfwidth,1e-3,rotate),(1,extended,1e-2,mirror),(2,round,1e-3,scale2),(1,round,1e-2,transform)}";
 
 typedef std::vector<std::pair<int, int>> WO;
 static WO all_wo() { WO v; for (int wk = 0; wk < 4; wk++) for (int ok = 0; ok < 4; ok++) v.push_back({wk, ok}); return v; }
@@ -664,6 +707,29 @@ static bool stage(const std::string& sub, int nsec, const std::vector<Group>& gr
     return ok;
 }
 
+// PATH-record extension stage: simple paths, constant width, Extended ends with start x end over
+// {0, half width exactly, 0.75 half width, -0.25 half width} (per element), offsets {0, 1.5}, 1|2 elements,
+// transforms that scale the extensions {identity, scale 2, transform(1.5, x_reflection, ...)}
+static bool stage_ext(const std::string& sub, int nsec) {
+    auto seqs = sequences(nsec);
+    const int trs[3] = {0, 3, 4};
+    int64_t n = (int64_t)seqs.size() * 6;
+    auto mk = [&](int64_t i, int j) {
+        Case c;
+        c.seq = seqs[i / 6];
+        c.nel = 1 + (int)(i % 6) / 3; c.tr = trs[i % 3]; c.end = 2; c.tol = 0; c.wk = 0;
+        c.ok = j / 16; c.eu = (j % 16) / 4; c.ev = j % 4;
+        return c;
+    };
+    auto body = [&](int64_t i) { for (int j = 0; j < 32; j++) run_case(mk(i, j)); };
+    PFOptions opt;
+    opt.case_timeout_s = R->thorough() ? 10 : 4;
+    opt.sub = sub;
+    bool ok = parallel_for(*R, n, body, [&](int64_t i) { return case_json(mk(i, 0)); }, [&](int64_t i) { return replay_of(mk(i, 0)) + " all_ext=1"; }, opt);
+    R->bound(sub, fmt("PATH records (GDSII and OASIS) of every constant-width simple path of %d section(s) (%zu sequences) x extended ends start x end over {0, half width, 0.75 half width, -0.25 half width} (16 pairs) x offset{0,1.5} x elements{1,2} x transform{identity,scale2,transform()}", nsec, seqs.size()), ok, n * 32);
+    return ok;
+}
+
 static Case parse_case(const Run& run) {
     Case c;
     std::string s = run.rarg("seq");
@@ -679,6 +745,7 @@ static Case parse_case(const Run& run) {
     c.wk = atoi(run.rarg("wk").c_str()); c.ok = atoi(run.rarg("ok").c_str()); c.nel = atoi(run.rarg("nel").c_str());
     c.end = atoi(run.rarg("end").c_str()); c.tol = atoi(run.rarg("tol").c_str()); c.tr = atoi(run.rarg("tr").c_str());
     if (c.nel < 1) c.nel = 1;
+    if (!run.rarg("eu").empty()) { c.eu = atoi(run.rarg("eu").c_str()); c.ev = atoi(run.rarg("ev").c_str()); }
     return c;
 }
 
@@ -692,6 +759,7 @@ int main(int argc, char** argv) {
         VERBOSE = true;
         Case c = parse_case(run);
         if (run.rarg("all_wo") == "1" || run.rarg("all_wo") == "2") { for (auto& p : (run.rarg("all_wo") == "1" ? all_wo() : diag_wo())) { c.wk = p.first; c.ok = p.second; run_case(c); } }
+        else if (run.rarg("all_ext") == "1") { for (int j = 0; j < 32; j++) { c.ok = j / 16; c.eu = (j % 16) / 4; c.ev = j % 4; run_case(c); } }
         else { fprintf(stderr, "replaying %s\n  %s\n", replay_of(c).c_str(), case_json(c).c_str()); run_case(c); }
         return run.finish();
     }
@@ -702,10 +770,12 @@ int main(int argc, char** argv) {
         for (auto& g : full_groups()) if ((g.nel == 1) == (g.tol == 0)) half.push_back(g);
         stage("seq1", 1, half, "(elements,tolerance){(1,1e-2),(2,1e-3)} x end{flush,halfwidth,extended,round} x transform{identity,rotate,mirror,scale2,transform()}");
     } else stage("seq1", 1, full_groups(), full);
+    stage_ext("pathext1", 1);
     if (!run.thorough()) {
         stage("seq2", 2, quick_groups(), QUICK_DESC);
     } else {
         stage("seq2", 2, full_groups(), full);
+        if (!run.out_of_time()) stage_ext("pathext2", 2);
         if (!run.out_of_time()) stage("seq3", 3, quick_groups(), QUICK_DESC, diag_wo());
     }
     return run.finish();
